@@ -7,6 +7,6 @@ mkdir -p harness/bin evidence replays
 ( cd harness && cat /repo/go.sum /repo/component/*/go.sum /repo/component/storage/edv/go.sum /repo/component/storage/leveldb/go.sum /repo/spi/go.sum /repo/test/component/go.sum go.sum 2>/dev/null | sort -u > go.sum.new && mv go.sum.new go.sum \
   && go build -tags verif -o bin/corr ./cmd/corr && go build -tags verif -o bin/extract ./cmd/extract )
 mkdir -p lean/AriesVerif/Generated
-( cd harness && ./bin/extract states > ../lean/AriesVerif/Generated/States.lean && ./bin/extract keytypes > ../lean/AriesVerif/Generated/KeyTypes.lean )
+( cd harness && for x in states:States keytypes:KeyTypes panicsites:PanicSites locks:Locks; do ./bin/extract ${x%%:*} > ../lean/AriesVerif/Generated/${x##*:}.lean || exit 1; done )
 ( cd lean && lake build )
 echo setup-ok
